@@ -43,7 +43,7 @@ var checks = map[string]Check{
 	},
 	"C07": {
 		Level:       "model_checking",
-		Rule:        "(a) explicit enumeration of all operation histories up to the stated depth over {accept, reject, SetID colliding/fresh, call, close, remote close, cut, peer close} on 2-3 connections, each run to quiescence on the real code with the index/health/notify/hook invariants evaluated in every quiescent state; (b) stateless DFS over all interleavings (preemption bound) of Close vs remote close/cut/Close and of colliding SetIDs; distinct = distinct observation logs",
+		Rule:        "(a) explicit enumeration of all operation histories up to the stated depth over {accept, reject, SetID colliding/fresh, call, close, remote close, cut, peer close} on 2-3 connections, each run to quiescence on the real code with the index/health/notify/hook invariants evaluated in every quiescent state; (b) stateless DFS over all interleavings (preemption bound) of Close vs remote close/cut/Close, of colliding SetIDs, of a takeover racing a disconnect and of a rename racing a takeover of the old id; distinct = distinct observation logs",
 		Assumptions: baseAssumptions,
 		Jobs: func(tier string) []Job {
 			var js []Job
@@ -57,7 +57,7 @@ var checks = map[string]Check{
 			if tier == "thorough" {
 				b = 3
 			}
-			for _, k := range []string{"close_vs_rclose", "close_vs_cut", "close_vs_close", "setid_vs_setid", "takeover_vs_close"} {
+			for _, k := range []string{"close_vs_rclose", "close_vs_cut", "close_vs_close", "setid_vs_setid", "takeover_vs_close", "rename_vs_takeover"} {
 				j := sched("c07_race", "kind="+k, b, 4)
 				if tier == "thorough" {
 					j.Shards = 16
@@ -70,7 +70,7 @@ var checks = map[string]Check{
 	},
 	"C01": {
 		Level:       "model_checking",
-		Rule:        "stateless DFS over all interleavings (preemption bound) of 2-3 concurrent Call/AsyncCall/Push operations (one session, both directions, two sessions) with tagged bodies+metadata of different lengths; the full (protocol x body codec x filter pipe) product at bound 0, selected configurations deeper; oracles: result/handler input/metadata agree with the sender's tag, handler inputs stable across a yield, multiset of handled = multiset sent",
+		Rule:        "stateless DFS over all interleavings (preemption bound) of 2-3 concurrent Call/AsyncCall/Push operations (one session, both directions, two sessions) with tagged bodies+metadata of different lengths; the full (protocol x body codec x filter pipe) product over raw/json/pb/thrift-binary plus http x codec x {none, gzip} at bound 0, selected configurations deeper; oracles: result/handler input/metadata agree with the sender's tag, handler inputs stable across a yield, multiset of handled = multiset sent",
 		Assumptions: baseAssumptions,
 		Jobs: func(tier string) []Job {
 			var js []Job
@@ -84,7 +84,7 @@ var checks = map[string]Check{
 						j := sched("c01", fmt.Sprintf("proto=%s,body=%s,pipe=%s,k=2", pr, bd, pp), b, 1)
 						if tier == "thorough" {
 							j.Shards = 4
-							j.Budget = 120
+							j.Budget = 60
 						}
 						js = append(js, j)
 					}
@@ -98,9 +98,21 @@ var checks = map[string]Check{
 				j := sched("c01", d, 1, 16)
 				if tier == "thorough" {
 					j.Bound = 2
-					j.Budget = 600
+					j.Budget = 300
 				}
 				js = append(js, j)
+			}
+			// the HTTP-style protocol (CALL/REPLY only, gzip as its only filter)
+			for _, bd := range []string{"json", "plain", "plainnamed", "protobuf", "form", "xml"} {
+				for _, pp := range []string{"none", "g"} {
+					j := sched("c01", fmt.Sprintf("proto=http,body=%s,pipe=%s,k=2", bd, pp), 0, 1)
+					if tier == "thorough" {
+						j.Bound = 1
+						j.Shards = 4
+						j.Budget = 60
+					}
+					js = append(js, j)
+				}
 			}
 			// k sequential calls whose commands are retained and re-read after later calls reused the pooled objects
 			for _, pr := range []string{"raw", "json"} {
@@ -134,7 +146,7 @@ var checks = map[string]Check{
 					if tier == "thorough" {
 						j.Bound = 2
 						j.Shards = 16
-						j.Budget = 900
+						j.Budget = 300
 						j.Params = fmt.Sprintf("dir=%s,closer=%s,yields=2", d, c)
 					}
 					js = append(js, j)
@@ -168,11 +180,11 @@ var checks = map[string]Check{
 	},
 	"C04": {
 		Level:       "model_checking",
-		Rule:        "live sessions: every handler status of the alphabet (13 codes x message x cause strings with separators, escapes, non-ASCII, NUL) and every framework failure cause (unknown route, undecodable argument, panic, closed session, undecodable result, vetoes at each stage) over raw/json/pb/thrift-binary, all non-preemptive schedules; frame level: a REPLY carrying every status of the full alphabet through Pack->Unpack of every shipped protocol including both websocket sub-protocols",
+		Rule:        "live sessions: every handler status of the alphabet (13 codes x message x cause strings with separators, escapes, non-ASCII, NUL) and every framework failure cause (unknown route, undecodable argument, panic, closed session, undecodable result, vetoes at each stage) over raw/json/pb/thrift-binary/http, all non-preemptive schedules; frame level: a REPLY carrying every status of the full alphabet through Pack->Unpack of every shipped protocol including both websocket sub-protocols, the HTTP-style protocol and the thrift struct protocol",
 		Assumptions: baseAssumptions,
 		Jobs: func(tier string) []Job {
 			var js []Job
-			for _, pr := range []string{"raw", "json", "pb", "thrift"} {
+			for _, pr := range []string{"raw", "json", "pb", "thrift", "http"} {
 				a := "short"
 				if tier == "thorough" {
 					a = "full"
@@ -202,7 +214,7 @@ var checks = map[string]Check{
 	},
 	"C05": {
 		Level:       "exploration",
-		Rule:        "bounded-exhaustive enumeration per protocol (raw, json, pb, thrift-binary, websocket json/pb sub-protocols): every value of each field alphabet against a base message (7 seqs, 3 types, 8 methods, 6 statuses, all metadata sequences of <=2 pairs over 10 atoms (quick: 1 pair + reduced 2-pair set), every registered codec id, all 256 single-byte bodies + escape mixes + 64 KiB, 5 pipes, boundary lengths) plus the full product of reduced alphabets; streams: every sequence of <=2 (quick) / 3 frames of a 6-frame alphabet through every uniform chunk size and every single split point, with per-frame size stability; a case is one message or one (sequence, chunking); classes = protocol x field class",
+		Rule:        "bounded-exhaustive enumeration per protocol (raw, json, pb, thrift-binary, websocket json/pb sub-protocols; the HTTP-style protocol and the thrift struct protocol within their narrower documented field sets -- http: CALL/REPLY, URL-path methods, mapped content types, gzip only, header-shaped metadata compared as a sorted set; thrift-struct: thrift struct bodies, no codec choice, no filters): every value of each field alphabet against a base message (7 seqs, 3 types, 8 methods, 6 statuses, all metadata sequences of <=2 pairs over 10 atoms (quick: 1 pair + reduced 2-pair set), every registered codec id, all 256 single-byte bodies + escape mixes + 64 KiB, 5 pipes, boundary lengths) plus the full product of reduced alphabets; streams: every sequence of <=2 (quick) / 3 frames of a 6-frame alphabet through every uniform chunk size and every single split point, with per-frame size stability; a case is one message or one (sequence, chunking); classes = protocol x field class",
 		Assumptions: []string{"field-by-field reference model written from the documented frame formats; domain limits are data in scen/c05.go (raw: 255/65535 byte limits; pb: service method must be valid UTF-8; ws sub-protocols are message-framed by the websocket layer)", "protocol instances are driven directly through Proto.Pack/Unpack over an in-memory reader"},
 		Jobs: func(tier string) []Job {
 			a, fr := "quick", "2"
@@ -372,17 +384,22 @@ var checks = map[string]Check{
 	},
 	"C19": {
 		Level:       "model_checking",
-		Rule:        "full product (4320 configurations) {call,push} x {method served by the backend, served nowhere} x caller codec {json,plain,protobuf} x 4 body byte strings x 5 request-metadata sets (duplicate key, real-ip present/absent) x 6 backend statuses x backend failure {none, before, during forwarding} on a live client -> proxy -> backend chain, compared with the same request sent directly to an identical backend (metamorphic oracle: body bytes, status triple, reply metadata one value per key, reply codec, backend invocation count and metadata view, real-ip injected iff absent, 502 on backend failure)",
+		Rule:        "full product (4320 configurations) {call,push} x {method served by the backend, served nowhere} x caller codec {json,plain,protobuf} x 4 body byte strings x 5 request-metadata sets (duplicate key, real-ip present/absent) x 6 backend statuses x backend failure {none, before, during forwarding} on a live client -> proxy -> backend chain, compared with the same request sent directly to an identical backend (metamorphic oracle: body bytes, status triple, reply metadata one value per key, reply codec, backend invocation count and metadata view, real-ip injected iff absent, 502 on backend failure); plus every sequence of 4 (quick) / 5 calls and pushes with empty, short and long bodies through one proxy, each compared with the direct call and with what the backend received",
 		Assumptions: append([]string{"backend statuses in the reserved connection-class range 100..199 are outside the alphabet (the plugin documents rewriting them to 502)", "quick tier: deterministic default schedule per configuration; thorough: all non-preemptive schedules within a time budget"}, baseAssumptions...),
 		Jobs: func(tier string) []Job {
 			j := sched("c19", "", 0, 8)
 			j.EnvOnly = true
+			// every sequence of calls/pushes with empty, short and long bodies through one proxy (pooled contexts reused)
+			sq := sched("c19_seq", "depth=4", 0, 4)
+			sq.EnvOnly = true
 			if tier == "thorough" {
 				k := sched("c19", "", 0, 16)
 				k.Budget = 900
-				return []Job{j, k}
+				sq.Params = "depth=5"
+				sq.Shards = 8
+				return []Job{j, sq, k}
 			}
-			return []Job{j}
+			return []Job{j, sq}
 		},
 	},
 	"C13": {
@@ -461,7 +478,7 @@ var checks = map[string]Check{
 	},
 	"C14": {
 		Level:       "model_checking",
-		Rule:        "race mode: the scenario binary is built with -race; the scheduler's hand-off is invisible to the detector and the shims publish exactly the happens-before edges of the real primitives, so every explored schedule is checked for data races exactly; scenarios: 2-3 threads each performing one documented-concurrent operation {Call, AsyncCall, Push, SetID, Swap store/load, Close, remote Close, GetSession, RangeSession, CountSession, age setters/getters, Health/ID, server-side Call} on shared sessions/peers; 21 operation pairs (quick) / all pairs and selected triples (thorough) x all interleavings up to the preemption bound; raw protocol plus a thrift-binary call/call pair",
+		Rule:        "race mode: the scenario binary is built with -race; the scheduler's hand-off is invisible to the detector and the shims publish exactly the happens-before edges of the real primitives, so every explored schedule is checked for data races exactly; scenarios: 2-3 threads each performing one documented-concurrent operation {Call, AsyncCall, Push, SetID, Swap store/load, Close, remote Close, GetSession, RangeSession, CountSession, age setters/getters, Health/ID, server-side Call} on shared sessions/peers; 21 operation pairs (quick) / all pairs and selected triples (thorough) x all interleavings up to the preemption bound; raw protocol plus a thrift-binary call/call pair; plus Dial with redial enabled against a server that drops the new connection at once while another goroutine enumerates, counts or pushes on the peer's sessions",
 		Assumptions: append([]string{"a race report is attributed to the schedule in which it first appears (the detector reports each racing pair once per process); reports produced while an execution is being torn down are ignored"}, baseAssumptions...),
 		Jobs: func(tier string) []Job {
 			pairs := [][]string{{"call", "call"}, {"call", "push"}, {"call", "close"}, {"call", "rclose"}, {"call", "setid"}, {"call", "swap"}, {"call", "srvcall"}, {"push", "close"}, {"setid", "lookup"}, {"setid", "range"}, {"setid", "count"}, {"setid", "setid"}, {"swap", "swap"}, {"close", "rclose"}, {"close", "close"}, {"close", "lookup"}, {"close", "range"}, {"async", "close"}, {"ages", "call"}, {"health", "close"}, {"srvcall", "rclose"}}
@@ -493,6 +510,23 @@ var checks = map[string]Check{
 			t := sched("c14_soup", "proto=thrift,a=call,b=call", 0, 2)
 			t.Race = true
 			js = append(js, t)
+			// Dial on a redial-enabled peer, the server dropping the fresh connection, sessions enumerated concurrently
+			for _, prm := range []string{"b=range,after=none", "b=count,after=none", "b=push,after=none"} {
+				d := sched("c14_dial", prm, 0, 2)
+				d.Race = true
+				if tier == "thorough" {
+					d.Bound = 1
+					d.Shards = 8
+					d.Budget = 120
+				}
+				js = append(js, d)
+			}
+			if tier == "thorough" {
+				d := sched("c14_dial", "b=range,after=call", 1, 8)
+				d.Race = true
+				d.Budget = 120
+				js = append(js, d)
+			}
 			return js
 		},
 	},
